@@ -116,6 +116,8 @@ func confVerrClass(m string) string {
 		return "EQuantity"
 	case has("invalid queue name"):
 		return "EQueueName"
+	case has("is reserved for the root queue"):
+		return "ERootReserved"
 	case has("duplicate child name"):
 		return "EDupQueue"
 	case has("is larger than maximum resource"):
@@ -189,6 +191,10 @@ func confRulesActive(cc *scheduler.ClusterContext) bool {
 
 // run f in its own goroutine: result, or "panic", or "hang" after the timeout (the goroutine is abandoned)
 func confGuard(f func() (string, string)) (string, string) {
+	return confGuardT(10*time.Second, f)
+}
+
+func confGuardT(limit time.Duration, f func() (string, string)) (string, string) {
 	type res struct{ a, b string }
 	done := make(chan res, 1)
 	go func() {
@@ -203,7 +209,7 @@ func confGuard(f func() (string, string)) (string, string) {
 	select {
 	case r := <-done:
 		return r.a, r.b
-	case <-time.After(1000 * time.Millisecond):
+	case <-time.After(limit):
 		return "hang", ""
 	}
 }
@@ -221,7 +227,7 @@ func confLoadNew(b []byte) (string, string) {
 	})
 }
 
-func confReload(base, b []byte) (string, string) {
+func confReload(base, b []byte, dropExpected bool) (string, string) {
 	defer ugm.VerifNewManager()
 	var cc *scheduler.ClusterContext
 	r, t := confGuard(func() (string, string) {
@@ -235,7 +241,12 @@ func confReload(base, b []byte) (string, string) {
 	if r != "" {
 		return r, t
 	}
-	r, t = confGuard(func() (string, string) {
+	// a reload that drops a partition is known to deadlock: do not wait long for it
+	limit := 10 * time.Second
+	if dropExpected {
+		limit = time.Second
+	}
+	r, t = confGuardT(limit, func() (string, string) {
 		err := cc.UpdateRMSchedulerConfig("rm", b)
 		if err != nil {
 			return "err:" + confLerrClass(err.Error()), err.Error()
@@ -280,7 +291,17 @@ func runConfCase(c *ConfCase) (in, out *configs.SchedulerConfig) {
 			for _, p := range baseConf.Partitions {
 				o.BaseParts = append(o.BaseParts, p.Name)
 			}
-			o.Reload, o.RelText = confReload([]byte(c.Base), b)
+			have := map[string]bool{}
+			for _, p := range conf.Partitions {
+				have[p.Name] = true
+			}
+			drop := false
+			for _, n := range o.BaseParts {
+				if !have[n] {
+					drop = true
+				}
+			}
+			o.Reload, o.RelText = confReload([]byte(c.Base), b, drop)
 			if o.Reload == "base-failed" {
 				o.Reload, o.BaseParts = "", nil
 			}
@@ -296,6 +317,18 @@ type confEmit struct {
 }
 
 func confStr(s string) string {
+	if s == "" {
+		return "[]"
+	}
+	printable := true
+	for i := 0; i < len(s); i++ {
+		if s[i] < 32 || s[i] > 126 {
+			printable = false
+		}
+	}
+	if printable {
+		return "(sb \"" + strings.ReplaceAll(s, "\"", "\"\"") + "\")"
+	}
 	items := make([]string, len(s))
 	for i := 0; i < len(s); i++ {
 		items[i] = fmt.Sprintf("%d", s[i])
@@ -563,7 +596,7 @@ func genConfCase(r *Rng, tier string) ConfCase {
 }
 
 const confRequires = `From YK Require Import Base.Res Conf.Str Conf.Config Conf.Validate Conf.Load Conf.WF Oracles.ConfCheck.
-From Coq Require Import List NArith Bool. Import ListNotations. Open Scope N_scope.`
+From Coq Require Import List NArith Bool. From Coq Require String. Import ListNotations String.StringSyntax. Open Scope string_scope. Open Scope N_scope.`
 
 func confEngine(o *Opts) {
 	rng := NewRng(o.Seed)
